@@ -737,12 +737,12 @@ class TextXMetaModel(DebugPrinter):
                 if pre_ref_resolution_callback:
                     pre_ref_resolution_callback(other_model)
 
+            known_files = self._known_model_files()
             model = self._parser_blueprint.clone().get_model_from_str(
                 model_str, debug=debug, pre_ref_resolution_callback=kwargs_callback
             )
 
-            for p in self._model_processors:
-                p(model, self)
+            self._call_model_processors(model, known_files)
         else:
             model = self.internal_model_from_file(
                 file_name,
@@ -782,6 +782,7 @@ class TextXMetaModel(DebugPrinter):
         file_name = abspath(file_name)
         model = None
         callback = pre_ref_resolution_callback
+        known_files = self._known_model_files()
 
         if hasattr(self, "_tx_model_repository"):
             # metamodel has a global repo
@@ -823,10 +824,43 @@ class TextXMetaModel(DebugPrinter):
                 is_main_model=is_main_model,
             )
 
-        for p in self._model_processors:
-            p(model, self)
+        self._call_model_processors(model, known_files)
 
         return model
+
+    def _known_model_files(self):
+        """
+        The files cached in the global model repository of this meta-model
+        (None if it has no global repository).
+        """
+        if hasattr(self, "_tx_model_repository"):
+            return set(self._tx_model_repository.all_models.filename_to_model)
+        return None
+
+    def _call_model_processors(self, model, known_files):
+        """
+        Calls the registered model processors. If one of them fails, the
+        models that this load added to the global model repository are
+        removed again: a failed load must not leave models behind (the same
+        is done for failures during model construction, see
+        `parse_tree_to_objgraph`). `known_files` are the files cached before
+        the load started; models of earlier loads stay.
+        """
+        try:
+            for p in self._model_processors:
+                p(model, self)
+        except:  # noqa
+            if known_files is not None:
+                from textx.scoping import remove_models_from_repositories
+
+                all_models = self._tx_model_repository.all_models
+                new_models = [
+                    m
+                    for f, m in list(all_models.filename_to_model.items())
+                    if f not in known_files
+                ]
+                remove_models_from_repositories(new_models, new_models)
+            raise
 
     def register_model_processor(self, model_processor):
         """
